@@ -31,12 +31,10 @@ CLAIMED = {
             "One-step claim from a representative dirty state; sizes <= 2.", "9.3/C10"),
     "C11": ("From the same dirty suspended state, each kind of successful edit (add / replace / delete / replace the DATA line) drops breakpoint, frames, loops, functions and data cursor; CONT / RETURN / NEXT / READ probes give the documented errors / first item; variables and arrays kept; jumping to a deleted line is an error, not a panic.",
             "Rejected edits: by code structure (tokenization precedes the store).", "9.3/C11"),
-    "C12": ("Matcher units on 6 fully symbolic ASCII bytes with symbolic start: line cruncher exactness; keyword matcher verdict and advance as a function of the crunched upper-cased bytes for all 26 keywords; one/two-character operators; leading-blank chomp; DATA item parser on all class strings of length <= 3 (4 thorough) with symbolic letters under blank insertion.",
-            "Whole-line composition is a paper argument; chomp_symbol / chomp_number / chomp_string not covered.", "9.3/C12"),
+    "C12": ("Matcher units on 6 fully symbolic ASCII bytes with symbolic start: line cruncher exactness; keyword matcher verdict and advance as a function of the crunched upper-cased bytes for all 26 keywords; one/two-character operators; leading-blank chomp; string-literal matcher; DATA item parser on all class strings of length <= 3 (4 thorough) under blank insertion, and its contract (never empty, in bounds) on all class strings incl. unbalanced quotes.",
+            "Whole-line composition is a paper argument; chomp_symbol not covered, chomp_number only in the thorough tier (memory); item letters in the DATA class strings are concrete.", "9.3/C12"),
     "C13": ("Same units with range assertions (cursor right after the last consumed byte, never on a blank, within the line; failed match consumes nothing) and tokenization-error range arithmetic for all positions.",
             "Re-tokenization oracle and multi-byte text not covered.", "9.3/C13"),
-    "C14": ("Canonical spelling (real Display) of each of the 39 payload-free tokens re-tokenizes through the real tokenizer to exactly that token; DATA parser insensitive to blanks at item boundaries (class strings). Witness-level for the spelling part (concrete).",
-            "Adjacent pairs, numerals, string/remark payloads and the DATA renderer (std formatting) outside.", "9.3/C14"),
     "C16": ("DimArray::new decided for every 1-3 tuple of usize maxima (thorough: 4) against an exact u128 product and the 10000 cap; addressing bijection on symbolic arrays; frame cap at 31/32 (GOSUB and FN call), loop cap at 32 with re-entry, pairwise-distinct loop variables; typed writes refused without side effects.",
             "\"Every write path\" closed by reading, not by the solver.", "9.3/C16"),
     "C17": ("2-safety step: two interpreters in the same state, flags (tracing, warnings) symbolic in one and off in the other, same statement: identical outcome, state, location and Print records; trace record iff tracing and numbered line, naming the line; warning iff warnings and the variable/array is absent; TRACE/NOTRACE set exactly the flag.",
@@ -48,8 +46,9 @@ CLAIMED = {
 }
 
 NOT_APPLICABLE = {
+    "C14": "LIST is built from std formatting: Token's Display impl (write!/Formatter machinery) and the DATA renderer (f64::to_string, format!) are out of reach for CBMC here -- the spelling round trip of even 5 payload-free tokens through the real Display and tokenizer exceeded 8 GB (kept as thorough-tier harnesses c14_spelling_*, not claimed). What can be decided of the reload path -- the DATA item parser's insensitivity to blanks at item boundaries and the tokenizer's matcher units -- is claimed under C12/C13; that is not enough to claim the fixed-point property itself. The DATA defect D11 that C14 names was found and fixed under C12.",
     "C15": "Process-level property (stdout/stderr of `abasic FILE` vs a piped session, clap/rustyline/ctrlc, the options -w/-t/--skip-check): I/O, FFI and argument parsing cannot be encoded for CBMC within reach; only the core clause (analyzer-loaded program == typed-in program) is exercised, as a side harness (c15_load_equals_typing, concrete text) that is reported under C04's evidence family but not claimed as deciding C15. The known CLI defect (file mode drops -w/-t) was found by reading, not by a check.",
-    "C20": "Language-server liveness over JSON-RPC/stdio with threads is process-level behaviour Kani does not handle; the position arithmetic in abasic-lsp/src/main.rs takes a SourceFileAnalyzer built from text, and cross-crate stubs of abasic-core's private items (needed to keep the analysis tractable from the abasic-lsp crate) could not be set up in the time available. The analyzer crash it depends on is covered (and fixed) under C05.",
+    "C20": "Language-server liveness over JSON-RPC/stdio with threads is process-level behaviour Kani does not handle. The position clause was attempted on the real get_semantic_tokens / analyze_source_file (harness/lsp/c20_positions.rs, concrete documents): from the abasic-lsp crate the core's private formatting impls cannot be stubbed, and the first document exceeded 12 GB, so no verdict is available and nothing is claimed. The analyzer crash the server depends on is covered (and fixed) under C05; the UTF-16 column defect (byte offsets used as columns) is known by reading only.",
 }
 
 ALL = ["C%02d" % i for i in range(1, 21)]
